@@ -119,6 +119,7 @@ func runTree(sw *shardWriter, j *jb, data []byte, segs []seg, st *genStats) {
 }
 
 func runTreeWith(rd *rjson.ValueReader, sw *shardWriter, j *jb, data []byte, segs []seg, st *genStats) {
+	data = relayout(data)
 	orig := append([]byte{}, data...)
 	panics := 0
 	j.reset()
